@@ -50,6 +50,20 @@ WellFormed(s) == /\ s.endpoint = "otherBindingOnly" =>
                  /\ s.conf2 # "absent" => /\ s.endpoint = "configured" /\ s.aud = "me" /\ s.dest \in {"own", "none"} /\ ~s.regex
                                           /\ s.irt = "id1" /\ s.sirt = "id1"
 
+\* the scenarios, built slice by slice (filtering the full product of Scn costs TLC a minute)
+Mk(irt, sirt, dest, aud, recip, regex, binding, enc, endpoint, conf2, conf2first, sameFrom, mtype, conv) ==
+    [irt : irt, sirt : sirt, dest : dest, aud : aud, recip : recip, allow : BOOLEAN, conv : conv, regex : regex, binding : binding,
+     enc : enc, endpoint : endpoint, conf2 : conf2, conf2first : conf2first, sameFrom : sameFrom, mtype : mtype]
+Scenarios ==
+    Mk(Irt, Sirt, Dest, Aud, Recip, BOOLEAN, Bind, BOOLEAN, {"configured"}, {"absent"}, {FALSE}, {FALSE}, {"authn"}, BOOLEAN)
+    \cup Mk({"id1"}, {"id1"}, {"otherBinding", "patternOnly", "foreign", "none"}, {"me"}, {"otherBinding", "entityid", "foreign"}, BOOLEAN, Bind,
+            {FALSE}, {"otherBindingOnly"}, {"absent"}, {FALSE}, {FALSE}, {"authn"}, BOOLEAN)
+    \cup Mk({"id1"}, {"id1"}, Dest \ {"patternOnly"}, {"me"}, Recip, BOOLEAN, Bind, {FALSE}, {"triples"}, {"absent"}, {FALSE}, {FALSE}, {"authn"}, BOOLEAN)
+    \cup Mk({"id1"}, {"id1"}, {"none"}, Aud, {"url"}, {FALSE}, {"post"}, {FALSE}, {"configured"}, {"absent"}, {FALSE}, {FALSE}, {"attribute"}, {FALSE})
+    \cup Mk({"id1"}, {"id1", "id2"}, {"own", "none"}, {"me"}, Recip, {FALSE}, Bind, BOOLEAN, {"configured"}, {"absent"}, {FALSE}, {TRUE}, {"authn"}, BOOLEAN)
+    \cup Mk({"id1"}, {"id1"}, {"own", "none"}, {"me"}, Recip, {FALSE}, Bind, BOOLEAN, {"configured"}, {"own", "foreign"}, BOOLEAN, {FALSE}, {"authn"}, BOOLEAN)
+ASSUME \A s \in Scenarios : s \in Scn /\ WellFormed(s)
+
 \* audience restrictions as a sequence of sets of audiences
 Restr(a) == CASE a = "none" -> <<>>
               [] a = "me" -> <<{"me"}>>
@@ -62,7 +76,7 @@ Restr(a) == CASE a = "none" -> <<>>
 VARIABLES scn, pc, cameFrom, verdict
 vars == <<scn, pc, cameFrom, verdict>>
 
-Init == scn \in {s \in Scn : WellFormed(s)} /\ pc = "loads" /\ cameFrom = "none" /\ verdict = "none"
+Init == scn \in Scenarios /\ pc = "loads" /\ cameFrom = "none" /\ verdict = "none"
 
 Reject == verdict' = "reject" /\ pc' = "done" /\ UNCHANGED <<scn, cameFrom>>
 Goto(p) == pc' = p /\ UNCHANGED <<scn, cameFrom, verdict>>
